@@ -646,7 +646,7 @@ class SchedThread:
 
 PENDING_SCHED = [None]   # scheduler that adopts workers started while the program is being set up
 PIDS = {}                # scheduled thread name -> emulated pid
-_real_os = _hd.os
+import os as _real_os   # the shim below is installed as loguru._handler.os whether or not that module imports os
 
 
 class _OsShim:
@@ -663,13 +663,75 @@ class _OsShim:
         return 1000
 
 
+class _DeadThread:
+    """the worker thread object as a forked child sees it: copied, but not running there"""
+
+    def join(self, timeout=None):
+        return None
+
+    def is_alive(self):
+        return False
+
+
+def fork_copy_logger(logger, p, sink_of=None):
+    """The logger as a child created by a raw os.fork() sees it: a memory copy.  Every object is copied attribute
+    by attribute (whatever the attributes are called, so that bookkeeping such as the owner of an enqueue handler is
+    inherited verbatim), the multiprocessing primitives (queue, events, mp locks of the FakeContext) stay shared,
+    thread locks are fresh and released (the at-fork hooks released them), thread-locals are fresh, the worker
+    thread does not run in the child, and the sink is the child's own copy (`sink_of(old)` gives the replacement of
+    the user's sink object)."""
+    def clone(o):
+        c = object.__new__(type(o))
+        for k, v in o.__dict__.items():
+            object.__setattr__(c, k, v)
+        return c
+
+    core = logger._core
+    ccore = clone(core)
+    for k, v in list(core.__dict__.items()):
+        if isinstance(v, Lock):
+            nl = Lock()
+            nl.tag = "core@%d" % p
+            object.__setattr__(ccore, k, nl)
+        elif isinstance(v, _real_threading.local):
+            object.__setattr__(ccore, k, _real_threading.local())
+        elif isinstance(v, dict) and k != "handlers":
+            object.__setattr__(ccore, k, dict(v))
+        elif isinstance(v, list):
+            object.__setattr__(ccore, k, list(v))
+    handlers = {}
+    for hid, h in core.handlers.items():
+        ch = clone(h)
+        for k, v in list(h.__dict__.items()):
+            if isinstance(v, Lock):
+                nl = Lock()
+                nl.tag = ("h@%d" if k == "_lock" else k.strip("_") + "@%d") % p
+                object.__setattr__(ch, k, nl)
+            elif isinstance(v, _real_threading.local):
+                object.__setattr__(ch, k, _real_threading.local())
+            elif isinstance(v, SchedThread):
+                object.__setattr__(ch, k, _DeadThread())
+            elif k == "_sink" and sink_of is not None:
+                w = clone(v)
+                for k2, v2 in list(v.__dict__.items()):
+                    r = sink_of(v2)
+                    if r is not None:
+                        object.__setattr__(w, k2, r)
+                object.__setattr__(ch, k, w)
+        handlers[hid] = ch
+    object.__setattr__(ccore, "handlers", handlers)
+    child = clone(logger)
+    object.__setattr__(child, "_core", ccore)
+    return child
+
+
 class QueueEnv(Env):
     """Env + enqueue shims: worker threads scheduled, per-thread pid"""
 
     def __enter__(self):
         super().__enter__()
         self.saved_thread = _hd.Thread
-        self.saved_os = _hd.os
+        self.saved_os = getattr(_hd, "os", None)
         _hd.Thread = SchedThread
         _hd.os = _OsShim()
         REGISTRY.clear()
@@ -680,7 +742,10 @@ class QueueEnv(Env):
 
     def __exit__(self, *a):
         _hd.Thread = self.saved_thread
-        _hd.os = self.saved_os
+        if self.saved_os is None:
+            del _hd.os
+        else:
+            _hd.os = self.saved_os
         PENDING_SCHED[0] = None
         super().__exit__(*a)
         REGISTRY.clear()
